@@ -14,9 +14,9 @@ JOBS = int(os.environ.get("VERIF_JOBS", "16"))
 COMMON = ["-g", "-fno-omit-frame-pointer", "-DTINS_STATIC=1", "-DTINS_VERIF_HOOKS=1",
           "-DHAVE_PCAP_IMMEDIATE_MODE=1", "-DHAVE_PCAP_TIMESTAMP_PRECISION=1", "-w"]
 FLAVORS = {
-    "asan": dict(cxx="g++", flags=["-O1", "-fsanitize=address,undefined", "-fno-sanitize=enum",
+    "asan": dict(cxx="g++", flags=["-O1", "-fsanitize=address,undefined", "-fno-sanitize=enum,null",
                                     "-fno-sanitize-recover=all", "-D_GLIBCXX_SANITIZE_VECTOR"]),
-    "cov": dict(cxx="g++", flags=["-O1", "-fsanitize-coverage=trace-pc"], hflags=["-DVERIF_COV=1"]),
+    "cov": dict(cxx="g++", flags=["-O1", "-fsanitize-coverage=trace-pc"], hflags=["-DVERIF_COV=1"], harness_flags=["-O1"]),  # harness itself uninstrumented (callback would recurse)
     "tsan": dict(cxx="g++", flags=["-O1", "-fsanitize=thread"]),
     "rel": dict(cxx="g++", flags=["-O2", "-DNDEBUG"]),
     "vg": dict(cxx="g++", flags=["-O1"]),
@@ -142,6 +142,8 @@ def build_flavor(flavor, log=sys.stderr):
 def gen_dir():
     key = hashlib.sha256((tree_hash() + open(os.path.join(VERIF, "build", "gen_describe.py")).read()
                           + open(os.path.join(VERIF, "harness", "common", "view.h")).read()
+                          + open(os.path.join(VERIF, "harness", "common", "view_put.h")).read()
+                          + open(os.path.join(VERIF, "harness", "common", "view_impl.cpp")).read()
                           + open(os.path.join(VERIF, "harness", "common", "gen_probe.cpp")).read()).encode()).hexdigest()[:16]
     return os.path.join(CACHE, "gen-%s" % key)
 
@@ -206,12 +208,61 @@ def gen_with_probe(log=sys.stderr):
     raise SystemExit(2)
 
 
+def corpus(log=sys.stderr):
+    """Seed corpus extracted from the unit tests of the current tree + /verif/corpus/*.hex."""
+    h = hashlib.sha256()
+    fs = sorted(glob.glob(os.path.join(REPO, "tests", "src", "**", "*.cpp"), recursive=True)) + sorted(glob.glob(os.path.join(VERIF, "corpus", "*.hex")))
+    fs.append(os.path.join(VERIF, "build", "extract_seeds.py"))
+    for f in fs:
+        h.update(open(f, "rb").read())
+    d = os.path.join(CACHE, "corpus-%s" % h.hexdigest()[:16])
+    out = os.path.join(d, "seeds.txt")
+    if os.path.exists(out):
+        os.utime(d, None)
+        return out
+    prune("corpus", d)
+    os.makedirs(d, exist_ok=True)
+    r = sh([sys.executable, os.path.join(VERIF, "build", "extract_seeds.py"), REPO, VERIF, out + ".tmp"])
+    if r.returncode != 0:
+        log.write("extract_seeds failed: " + r.stderr[-2000:] + "\n"); raise SystemExit(2)
+    os.rename(out + ".tmp", out)
+    log.write("[corpus] %s seeds\n" % r.stdout.strip())
+    return out
+
+
+def build_view_impl(flavor, fd, gd, log):
+    """view_impl.cpp (generated describe machinery) compiled once per flavor/tree/generator state."""
+    fl = FLAVORS[flavor]
+    h = hashlib.sha256()
+    for f in sorted(glob.glob(os.path.join(VERIF, "harness", "common", "*"))):
+        h.update(open(f, "rb").read())
+    h.update(gd.encode())
+    out = os.path.join(fd, "view_impl-%s.o" % h.hexdigest()[:12])
+    if os.path.exists(out):
+        return out
+    for old in glob.glob(os.path.join(fd, "view_impl-*.o")):
+        os.remove(old)
+    t0 = time.time()
+    cmd = ([fl["cxx"], "-std=gnu++17"] + COMMON + fl.get("harness_flags", fl["flags"]) + fl.get("hflags", []) + config_inc(fd) +
+           ["-I", os.path.join(REPO, "include"), "-I", gd, "-I", os.path.join(VERIF, "harness", "common"),
+            "-c", os.path.join(VERIF, "harness", "common", "view_impl.cpp"), "-o", out + ".tmp"])
+    r = sh(cmd)
+    if r.returncode != 0:
+        log.write("view_impl BUILD FAILED (%s):\n%s\n" % (flavor, r.stderr[-6000:])); raise SystemExit(2)
+    os.rename(out + ".tmp", out)
+    log.write("[build] %s/view_impl in %.1fs\n" % (flavor, time.time() - t0))
+    return out
+
+
 def build_harness(src, flavor, log=sys.stderr, extra=None):
     """Compile harness/<src> against the flavor; returns path of the binary."""
     fd = build_flavor(flavor, log)
     gd = gen_with_probe(log)
     fl = FLAVORS[flavor]
     srcp = os.path.join(VERIF, "harness", src)
+    uses_view = '#include "view' in open(srcp).read()
+    extra = list(extra or [])
+    pre = [build_view_impl(flavor, fd, gd, log)] if uses_view else []
     deps = [srcp] + sorted(glob.glob(os.path.join(VERIF, "harness", "common", "*.h")))
     h = hashlib.sha256()
     for f in deps:
@@ -223,9 +274,9 @@ def build_harness(src, flavor, log=sys.stderr, extra=None):
     for old in glob.glob(os.path.join(fd, os.path.basename(src)[:-4] + "-*")):
         os.remove(old)
     t0 = time.time()
-    cmd = ([fl["cxx"], "-std=gnu++17"] + COMMON + fl["flags"] + fl.get("hflags", []) + config_inc(fd) +
+    cmd = ([fl["cxx"], "-std=gnu++17"] + COMMON + fl.get("harness_flags", fl["flags"]) + fl.get("hflags", []) + config_inc(fd) +
            ["-I", os.path.join(REPO, "include"), "-I", gd, "-I", os.path.join(VERIF, "harness", "common"),
-            srcp, "-o", out + ".tmp", os.path.join(fd, "libtins.a"), "-lpcap", "-lcrypto", "-lpthread", "-ldl", "-no-pie"] +
+            srcp, "-o", out + ".tmp"] + pre + [os.path.join(fd, "libtins.a"), "-lpcap", "-lcrypto", "-lpthread", "-ldl", "-no-pie"] +
            fl.get("link", []) + (extra or []))
     r = sh(cmd)
     if r.returncode != 0:
